@@ -6,6 +6,8 @@
 use crate::runner::{Ctx, PropDyn};
 
 pub mod c01;
+pub mod c03;
+pub mod c05;
 pub mod c19;
 
 pub type PropList = Vec<(Box<dyn PropDyn>, u32, u32)>;
@@ -24,6 +26,18 @@ pub fn all() -> Vec<Check> {
             props: c01::props,
             describe: c01::describe,
             sweeps: Some(c01::sweeps),
+        },
+        Check {
+            id: "C03",
+            props: c03::props,
+            describe: c03::describe,
+            sweeps: Some(c03::sweeps),
+        },
+        Check {
+            id: "C05",
+            props: c05::props,
+            describe: c05::describe,
+            sweeps: Some(c05::sweeps),
         },
         Check {
         id: "C19",
